@@ -4,100 +4,349 @@ import Grass.Units
   Property theorems about `Grass/Units.lean` and the *generated* tables
   `Grass/Generated/UnitTable.lean`, `UnitKinds.lean` (regenerated from the Rust source by
   `tools/translate_units.py` on every run of the check: a changed constant or kind makes the
-  `decide +kernel` proofs below fail to build).
+  `decide +kernel` checks below fail to build).
 
-  Factors are symbolic (`Sym` = rational × power of π), so `rad` is exact.
+  Factors are symbolic (`Sym` = rational × power of π), so `rad` is exact.  The kernel checks run on
+  pairs of naturals (`SymN`, cross-multiplication); the statements are lifted to `Sym` by lemmas, and
+  reflexivity / inverse / transitivity follow algebraically from `factor u v = size v / size u`.
 -/
 namespace Grass.Units
 open Grass.Generated Grass.Num
 
 theorem KU.mem_all (u : KU) : u ∈ KU.all := by cases u <;> decide
 
-/-- lift a statement checked on the complete list of units to all units -/
-theorem forall_KU₂ {P : KU → KU → Prop} (h : ∀ u ∈ KU.all, ∀ v ∈ KU.all, P u v) (u v : KU) : P u v :=
-  h u (KU.mem_all u) v (KU.mem_all v)
+/-! ## `Sym` algebra -/
+theorem Sym.ext' {a b : Sym} (hq : a.q = b.q) (hk : a.k = b.k) : a = b := by
+  cases a; cases b; simp_all
 
-/-! ## the table is the CSS table -/
+theorem Sym.mul_comm (a b : Sym) : a.mul b = b.mul a := by
+  apply Sym.ext' <;> simp only [Sym.mul] <;> grind
+theorem Sym.mul_assoc (a b c : Sym) : (a.mul b).mul c = a.mul (b.mul c) := by
+  apply Sym.ext' <;> simp only [Sym.mul] <;> grind
+theorem Sym.mul_one (a : Sym) : a.mul Sym.one = a := by
+  apply Sym.ext' <;> simp only [Sym.mul, Sym.one] <;> grind
+theorem Sym.one_mul (a : Sym) : Sym.one.mul a = a := by
+  apply Sym.ext' <;> simp only [Sym.mul, Sym.one] <;> grind
+theorem Sym.mul_inv_cancel (a : Sym) (h : a.q ≠ 0) : a.mul a.inv = Sym.one := by
+  apply Sym.ext' <;> simp only [Sym.mul, Sym.inv, Sym.one] <;> grind
+theorem Sym.mul_left_comm (a b c : Sym) : a.mul (b.mul c) = b.mul (a.mul c) := by
+  apply Sym.ext' <;> simp only [Sym.mul] <;> grind
+theorem Sym.inv_mul (a b : Sym) : (a.mul b).inv = a.inv.mul b.inv := by
+  apply Sym.ext' <;> simp only [Sym.mul, Sym.inv] <;> grind
+theorem Sym.mul_q_ne (a b : Sym) (ha : a.q ≠ 0) (hb : b.q ≠ 0) : (a.mul b).q ≠ 0 := by
+  simp only [Sym.mul]; grind
+theorem Sym.inv_q_ne (a : Sym) (ha : a.q ≠ 0) : a.inv.q ≠ 0 := by
+  simp only [Sym.inv]; grind
+/-- cancel a non-zero factor -/
+theorem Sym.mul_right_cancel (a b c : Sym) (hc : c.q ≠ 0) (h : a.mul c = b.mul c) : a = b := by
+  have := congrArg (fun x => x.mul c.inv) h
+  simp only [Sym.mul_assoc, Sym.mul_inv_cancel c hc, Sym.mul_one] at this
+  exact this
 
-/-- HashMap semantics: no key is inserted twice, so first match = last insert. -/
-theorem C08_table_keys_nodup : (tableEntries.map fun e => (e.1, e.2.1)).Nodup := by decide +kernel
+/-! ## naturals to rationals -/
+theorem natdiv_eq (a b c d : Nat) (hb : b ≠ 0) (hd : d ≠ 0) (h : a * d = c * b) :
+    (a : Rat) / (b : Rat) = (c : Rat) / (d : Rat) := by
+  have hb' : (b : Rat) ≠ 0 := by intro e; rw [Rat.natCast_eq_zero_iff] at e; exact hb e
+  have hd' : (d : Rat) ≠ 0 := by intro e; rw [Rat.natCast_eq_zero_iff] at e; exact hd e
+  have hc : (a : Rat) * (d : Rat) = (c : Rat) * (b : Rat) := by
+    have := congrArg (fun n : Nat => (n : Rat)) h
+    simpa [Rat.natCast_mul] using this
+  grind
 
-/-- **Every entry of the generated table equals the ratio of the property statement, and the table
-    has an entry exactly where the CSS ratios define one** (both directions: `none = none` too). -/
-theorem C08_table_eq_css (t f : KU) : factorSym t f = cssSpec t f :=
-  forall_KU₂ (P := fun t f => factorSym t f = cssSpec t f) (by decide +kernel) t f
-example : factorSym .In .Cm = some ⟨50 / 127, 0⟩ ∧ factorSym .Deg .Rad = some ⟨180, -1⟩ ∧
-    factorSym .Px .Em = none := by decide +kernel
+theorem natdiv_ne (a b : Nat) (ha : a ≠ 0) (hb : b ≠ 0) : (a : Rat) / (b : Rat) ≠ 0 := by
+  have ha' : (a : Rat) ≠ 0 := by intro e; rw [Rat.natCast_eq_zero_iff] at e; exact ha e
+  have hb' : (b : Rat) ≠ 0 := by intro e; rw [Rat.natCast_eq_zero_iff] at e; exact hb e
+  grind
 
-/-! ## coherence of the factors -/
+theorem SymN.ok_iff (a : SymN) : a.ok = true ↔ a.n ≠ 0 ∧ a.d ≠ 0 := by
+  simp [SymN.ok]
 
-/-- converting a convertible unit to itself is the identity -/
-theorem C08_factor_refl (u : KU) : (factorSym u u).isSome = true → factorSym u u = some Sym.one :=
-  forall_KU₂ (P := fun u _ => (factorSym u u).isSome = true → factorSym u u = some Sym.one) (by decide +kernel) u u
+theorem SymN.toSym_q_ne (a : SymN) (h : a.ok = true) : a.toSym.q ≠ 0 := by
+  rw [SymN.ok_iff] at h; exact natdiv_ne _ _ h.1 h.2
 
-/-- decidable form of "there and back is the identity, and entries come in pairs" -/
-def invOK (u v : KU) : Bool :=
-  match factorSym u v, factorSym v u with
-  | some a, some b => a.mul b == Sym.one
+theorem SymN.toSym_mul (a b : SymN) (ha : a.ok = true) (hb : b.ok = true) :
+    (a.mul b).toSym = a.toSym.mul b.toSym := by
+  rw [SymN.ok_iff] at ha hb
+  have h1 : (a.d : Rat) ≠ 0 := by intro e; rw [Rat.natCast_eq_zero_iff] at e; exact ha.2 e
+  have h2 : (b.d : Rat) ≠ 0 := by intro e; rw [Rat.natCast_eq_zero_iff] at e; exact hb.2 e
+  apply Sym.ext'
+  · simp only [SymN.toSym, SymN.mul, Sym.mul, Rat.natCast_mul]; grind
+  · rfl
+
+theorem SymN.toSym_div (a b : SymN) (ha : a.ok = true) (hb : b.ok = true) :
+    (a.div b).toSym = a.toSym.div b.toSym := by
+  rw [SymN.ok_iff] at ha hb
+  have h1 : (a.d : Rat) ≠ 0 := by intro e; rw [Rat.natCast_eq_zero_iff] at e; exact ha.2 e
+  have h2 : (b.d : Rat) ≠ 0 := by intro e; rw [Rat.natCast_eq_zero_iff] at e; exact hb.2 e
+  have h3 : (b.n : Rat) ≠ 0 := by intro e; rw [Rat.natCast_eq_zero_iff] at e; exact hb.1 e
+  apply Sym.ext'
+  · simp only [SymN.toSym, SymN.div, Sym.div, Sym.mul, Sym.inv, Rat.natCast_mul]; grind
+  · simp only [SymN.toSym, SymN.div, Sym.div, Sym.mul, Sym.inv]; omega
+
+theorem SymN.ok_mul (a b : SymN) (ha : a.ok = true) (hb : b.ok = true) : (a.mul b).ok = true := by
+  rw [SymN.ok_iff] at *; simp only [SymN.mul]
+  exact ⟨Nat.mul_ne_zero ha.1 hb.1, Nat.mul_ne_zero ha.2 hb.2⟩
+theorem SymN.ok_div (a b : SymN) (ha : a.ok = true) (hb : b.ok = true) : (a.div b).ok = true := by
+  rw [SymN.ok_iff] at *; simp only [SymN.div]
+  exact ⟨Nat.mul_ne_zero ha.1 hb.2, Nat.mul_ne_zero ha.2 hb.1⟩
+
+theorem symNOf_spec (e : CExpr) (h : cexprOk e = true) : (symNOf e).ok = true ∧ symOf e = (symNOf e).toSym := by
+  induction e with
+  | lit n d => exact ⟨by simpa [cexprOk, symNOf, SymN.ok] using h, rfl⟩
+  | pi => exact ⟨by decide, by decide +kernel⟩
+  | mul a b iha ihb =>
+    simp only [cexprOk, Bool.and_eq_true] at h
+    obtain ⟨oa, ea⟩ := iha h.1; obtain ⟨ob, eb⟩ := ihb h.2
+    exact ⟨SymN.ok_mul _ _ oa ob, by simp only [symOf, symNOf]; rw [SymN.toSym_mul _ _ oa ob, ea, eb]⟩
+  | div a b iha ihb =>
+    simp only [cexprOk, Bool.and_eq_true] at h
+    obtain ⟨oa, ea⟩ := iha h.1; obtain ⟨ob, eb⟩ := ihb h.2
+    exact ⟨SymN.ok_div _ _ oa ob, by simp only [symOf, symNOf]; rw [SymN.toSym_div _ _ oa ob, ea, eb]⟩
+
+theorem SymN.eqv_toSym (a b : SymN) (ha : a.ok = true) (hb : b.ok = true) (h : a.eqv b = true) : a.toSym = b.toSym := by
+  rw [SymN.ok_iff] at ha hb
+  simp only [SymN.eqv, Bool.and_eq_true, beq_iff_eq] at h
+  apply Sym.ext'
+  · exact natdiv_eq _ _ _ _ ha.2 hb.2 h.1
+  · exact h.2
+
+/-! ## kernel checks over the generated table: `Nat` arithmetic only -/
+def tableOk : Bool := KU.all.all fun t => (tableRow t).all fun e => cexprOk e.2
+def sizesOk : Bool := KU.all.all fun u => match cssSizeN u with | some p => p.2.ok | none => true
+def tableCheckN : Bool := KU.all.all fun t => KU.all.all fun f =>
+  match tableGet t f, cssSpecN t f with
+  | some e, some s => (symNOf e).eqv s
   | none, none => true
   | _, _ => false
 
-/-- decidable form of transitivity: `to ← mid ← from` composes to `to ← from` -/
-def transOK (u v w : KU) : Bool :=
-  match factorSym u v, factorSym v w with
-  | some a, some b => factorSym u w == some (a.mul b)
-  | _, _ => true
+theorem tableOk_true : tableOk = true := by decide +kernel
+theorem sizesOk_true : sizesOk = true := by decide +kernel
+theorem tableCheckN_true : tableCheckN = true := by decide +kernel
 
-theorem invOK_all (u v : KU) : invOK u v = true :=
-  forall_KU₂ (P := fun u v => invOK u v = true) (by decide +kernel) u v
+theorem all₂ {P : KU → KU → Bool} (h : (KU.all.all fun t => KU.all.all fun f => P t f) = true) (t f : KU) :
+    P t f = true := by
+  have h1 := List.all_eq_true.1 h t (KU.mem_all t)
+  exact List.all_eq_true.1 h1 f (KU.mem_all f)
 
-theorem transOK_all (u v w : KU) : transOK u v w = true := by
-  have h : ∀ u ∈ KU.all, ∀ v ∈ KU.all, ∀ w ∈ KU.all, transOK u v w = true := by decide +kernel
-  exact h u (KU.mem_all u) v (KU.mem_all v) w (KU.mem_all w)
+theorem all₁ {P : KU → Bool} (h : (KU.all.all fun t => P t) = true) (t : KU) : P t = true :=
+  List.all_eq_true.1 h t (KU.mem_all t)
+
+theorem KU.idx_inj {u v : KU} (h : u.idx = v.idx) : u = v := by
+  have hu : KU.ofIdx u.idx = u := by cases u <;> rfl
+  have hv : KU.ofIdx v.idx = v := by cases v <;> rfl
+  rw [← hu, ← hv, h]
+
+theorem lookupRow_mem (f : KU) (e : CExpr) : ∀ row, lookupRow f row = some e → (f, e) ∈ row := by
+  intro row
+  induction row with
+  | nil => intro h; cases h
+  | cons x r ih =>
+    obtain ⟨f', e'⟩ := x
+    intro h
+    unfold lookupRow at h
+    split at h
+    · rename_i hc
+      injection h with h; subst h
+      have : f' = f := KU.idx_inj (by simpa using hc)
+      subst this; simp
+    · exact List.mem_cons_of_mem _ (ih h)
+
+theorem table_cexprOk (t f : KU) (e : CExpr) (h : tableGet t f = some e) : cexprOk e = true := by
+  have hm := lookupRow_mem f e _ h
+  have h1 := all₁ (P := fun t => (tableRow t).all fun e => cexprOk e.2) tableOk_true t
+  exact List.all_eq_true.1 h1 _ hm
+
+theorem cssSizeN_ok (u : KU) (d : Dim) (s : SymN) (h : cssSizeN u = some (d, s)) : s.ok = true := by
+  have := all₁ (P := fun u => match cssSizeN u with | some p => p.2.ok | none => true) sizesOk_true u
+  rw [h] at this; exact this
+
+theorem cssSpecN_ok (t f : KU) (s : SymN) (h : cssSpecN t f = some s) : s.ok = true := by
+  unfold cssSpecN at h
+  cases h1 : cssSizeN t with
+  | none => simp [h1] at h
+  | some p =>
+    cases h2 : cssSizeN f with
+    | none => simp [h1, h2] at h
+    | some q =>
+      obtain ⟨d1, s1⟩ := p; obtain ⟨d2, s2⟩ := q
+      simp only [h1, h2] at h
+      split at h
+      · injection h with h; subst h
+        exact SymN.ok_div _ _ (cssSizeN_ok f d2 s2 h2) (cssSizeN_ok t d1 s1 h1)
+      · cases h
+
+/-- the Rat-valued specification is the image of the Nat-valued one -/
+theorem cssSpec_eq (t f : KU) : cssSpec t f = (cssSpecN t f).map SymN.toSym := by
+  unfold cssSpec cssSpecN cssSize
+  cases h1 : cssSizeN t with
+  | none => simp
+  | some p =>
+    cases h2 : cssSizeN f with
+    | none => simp
+    | some q =>
+      obtain ⟨d1, s1⟩ := p; obtain ⟨d2, s2⟩ := q
+      simp only [Option.map_some]
+      by_cases hd : d1 = d2
+      · simp only [hd, if_true, Option.map_some]
+        rw [SymN.toSym_div _ _ (cssSizeN_ok f d2 s2 h2) (cssSizeN_ok t d1 s1 h1)]
+      · simp [hd]
+
+/-! ## the table is the CSS table -/
+
+/-- HashMap semantics: no key is inserted twice into a row (the translator also rejects duplicate rows). -/
+theorem C08_table_keys_nodup (t : KU) : ((tableRow t).map fun e => e.1.idx).Nodup :=
+  of_decide_eq_true (all₁ (P := fun t => decide ((tableRow t).map fun e => e.1.idx).Nodup) (by decide +kernel) t)
+
+/-- **Every entry of the generated table equals the ratio of the property statement, and the table
+    has an entry exactly where the CSS ratios define one** (both directions: `none = none` too). -/
+theorem C08_table_eq_css (t f : KU) : factorSym t f = cssSpec t f := by
+  have hc := all₂ (P := fun t f => match tableGet t f, cssSpecN t f with
+    | some e, some s => (symNOf e).eqv s
+    | none, none => true
+    | _, _ => false) tableCheckN_true t f
+  rw [cssSpec_eq]
+  unfold factorSym
+  cases h1 : tableGet t f with
+  | none =>
+    cases h2 : cssSpecN t f with
+    | none => rfl
+    | some s => simp [h1, h2] at hc
+  | some e =>
+    cases h2 : cssSpecN t f with
+    | none => simp [h1, h2] at hc
+    | some s =>
+      simp only [h1, h2] at hc
+      obtain ⟨oe, ee⟩ := symNOf_spec e (table_cexprOk t f e h1)
+      simp only [Option.map_some]
+      rw [ee, SymN.eqv_toSym _ _ oe (cssSpecN_ok t f s h2) hc]
+example : factorSym .In .Cm = some ⟨50 / 127, 0⟩ ∧ factorSym .Deg .Rad = some ⟨180, -1⟩ ∧
+    factorSym .Px .Em = none := by decide +kernel
+
+/-! ## coherence of the factors — algebraically, from `factor u v = size v / size u` -/
+
+theorem cssSize_q_ne (u : KU) (d : Dim) (s : Sym) (h : cssSize u = some (d, s)) : s.q ≠ 0 := by
+  unfold cssSize at h
+  cases h1 : cssSizeN u with
+  | none => simp [h1] at h
+  | some p =>
+    simp only [h1, Option.map_some, Option.some.injEq, Prod.mk.injEq] at h
+    rw [← h.2]
+    exact SymN.toSym_q_ne _ (cssSizeN_ok u p.1 p.2 h1)
+
+/-- a factor exists exactly between two units of the same dimension, and is the quotient of their sizes -/
+theorem factor_some_iff (u v : KU) (x : Sym) :
+    factorSym u v = some x ↔ ∃ d su sv, cssSize u = some (d, su) ∧ cssSize v = some (d, sv) ∧ x = sv.div su := by
+  rw [C08_table_eq_css]
+  unfold cssSpec
+  cases h1 : cssSize u with
+  | none => simp
+  | some p =>
+    cases h2 : cssSize v with
+    | none => simp
+    | some q =>
+      obtain ⟨d1, s1⟩ := p; obtain ⟨d2, s2⟩ := q
+      simp only
+      by_cases hd : d1 = d2
+      · subst hd
+        simp only [if_true, Option.some.injEq]
+        constructor
+        · intro h; exact ⟨d1, s1, s2, rfl, rfl, h.symm⟩
+        · rintro ⟨d, su, sv, h3, h4, h5⟩
+          injection h3 with h3 h3'; injection h4 with h4 h4'
+          subst h3'; subst h4'; exact h5.symm
+      · simp only [hd, if_false]
+        constructor
+        · intro h; cases h
+        · rintro ⟨d, su, sv, h3, h4, _⟩
+          injection h3 with h3; injection h4 with h4
+          injection h3 with h3 _; injection h4 with h4 _
+          exact absurd (h3.trans h4.symm) hd
+
+theorem Sym.div_self (s : Sym) (h : s.q ≠ 0) : s.div s = Sym.one := Sym.mul_inv_cancel s h
+
+/-- converting a convertible unit to itself is the identity -/
+theorem C08_factor_refl (u : KU) (h : (factorSym u u).isSome = true) : factorSym u u = some Sym.one := by
+  obtain ⟨x, hx⟩ := Option.isSome_iff_exists.1 h
+  obtain ⟨d, su, sv, h1, h2, h3⟩ := (factor_some_iff u u x).1 hx
+  rw [h1] at h2; injection h2 with h2; injection h2 with _ h2; subst h2
+  rw [hx, h3, Sym.div_self su (cssSize_q_ne u d su h1)]
 
 /-- there and back is the identity -/
 theorem C08_factor_inverse (u v : KU) (a b : Sym) (h1 : factorSym u v = some a) (h2 : factorSym v u = some b) :
     a.mul b = Sym.one := by
-  have := invOK_all u v
-  simp only [invOK, h1, h2] at this
-  simpa using this
+  obtain ⟨d, su, sv, e1, e2, e3⟩ := (factor_some_iff u v a).1 h1
+  obtain ⟨d', sv', su', f1, f2, f3⟩ := (factor_some_iff v u b).1 h2
+  rw [e2] at f1; rw [e1] at f2
+  injection f1 with f1; injection f2 with f2
+  injection f1 with _ f1; injection f2 with _ f2
+  subst f1; subst f2; subst e3; subst f3
+  have hu := cssSize_q_ne u d su e1
+  have hv := cssSize_q_ne v d sv e2
+  apply Sym.ext' <;> simp only [Sym.div, Sym.mul, Sym.inv, Sym.one]
+  · grind
+  · omega
 
 /-- entries come in pairs: `u ← v` exists iff `v ← u` exists -/
 theorem C08_factor_pairs (u v : KU) : (factorSym u v).isSome = (factorSym v u).isSome := by
-  have := invOK_all u v
-  unfold invOK at this
-  cases h1 : factorSym u v <;> cases h2 : factorSym v u <;> simp_all
+  have key : ∀ u v, (factorSym u v).isSome = true → (factorSym v u).isSome = true := by
+    intro u v h
+    obtain ⟨x, hx⟩ := Option.isSome_iff_exists.1 h
+    obtain ⟨d, su, sv, e1, e2, _⟩ := (factor_some_iff u v x).1 hx
+    exact Option.isSome_iff_exists.2 ⟨_, (factor_some_iff v u _).2 ⟨d, sv, su, e2, e1, rfl⟩⟩
+  cases h1 : (factorSym u v).isSome <;> cases h2 : (factorSym v u).isSome <;> simp_all
 
 /-- conversion is transitive: `u ← v` composed with `v ← w` is `u ← w` -/
 theorem C08_factor_transitive (u v w : KU) (a b : Sym) (h1 : factorSym u v = some a) (h2 : factorSym v w = some b) :
     factorSym u w = some (a.mul b) := by
-  have := transOK_all u v w
-  simp only [transOK, h1, h2] at this
-  simpa using this
+  obtain ⟨d, su, sv, e1, e2, e3⟩ := (factor_some_iff u v a).1 h1
+  obtain ⟨d', sv', sw, f1, f2, f3⟩ := (factor_some_iff v w b).1 h2
+  rw [e2] at f1
+  injection f1 with f1; injection f1 with fd f1
+  subst f1; subst fd; subst e3; subst f3
+  apply (factor_some_iff u w _).2
+  refine ⟨d, su, sw, e1, f2, ?_⟩
+  have hv := cssSize_q_ne v d sv e2
+  apply Sym.ext' <;> simp only [Sym.div, Sym.mul, Sym.inv]
+  · grind
+  · omega
 example : (factorSym .In .Cm, factorSym .Cm .Q, factorSym .In .Q) =
     (some ⟨50 / 127, 0⟩, some ⟨1 / 40, 0⟩, some ⟨5 / 508, 0⟩) := by decide +kernel
 
 /-! ## compatibility predicate = table keys = same convertible kind -/
 
+theorem isSome_factorSym (u v : KU) : (factorSym u v).isSome = (tableGet u v).isSome := by
+  unfold factorSym; cases tableGet u v <;> rfl
+
 /-- `Unit::comparable` on two known units is true exactly when they are equal or the table has an
     entry (the predicate is written separately from the table in the Rust source). -/
 theorem C08_comparable_iff_entry (u v : KU) :
-    comparable (.one (.known u)) (.one (.known v)) = (decide (u = v) || (factorSym u v).isSome) :=
-  forall_KU₂ (P := fun u v => comparable (.one (.known u)) (.one (.known v)) = (decide (u = v) || (factorSym u v).isSome))
+    comparable (.one (.known u)) (.one (.known v)) = (decide (u = v) || (factorSym u v).isSome) := by
+  rw [isSome_factorSym]
+  have := all₂ (P := fun u v => comparable (.one (.known u)) (.one (.known v)) == (u.idx == v.idx || (tableGet u v).isSome))
     (by decide +kernel) u v
+  rw [beq_iff_eq] at this
+  rw [this]
+  congr 1
+  by_cases h : u = v
+  · subst h; simp
+  · have : u.idx ≠ v.idx := fun e => h (KU.idx_inj e)
+    simp [h, this]
 
 /-- … and the table has an entry exactly for two units of the same kind when that kind has a
     canonical unit (absolute lengths, angles, times, frequencies, resolutions). -/
 theorem C08_entry_iff_same_kind (u v : KU) :
-    (factorSym u v).isSome = (decide (u.kind = v.kind) && u.kind.canonical.isSome) :=
-  forall_KU₂ (P := fun u v => (factorSym u v).isSome = (decide (u.kind = v.kind) && u.kind.canonical.isSome))
+    (factorSym u v).isSome = (decide (u.kind = v.kind) && u.kind.canonical.isSome) := by
+  rw [isSome_factorSym]
+  have := all₂ (P := fun u v => (tableGet u v).isSome == (decide (u.kind = v.kind) && u.kind.canonical.isSome))
     (by decide +kernel) u v
+  exact beq_iff_eq.1 this
 
 /-- the code's predicate agrees with convertibility by the CSS ratios -/
 theorem C08_comparable_eq_spec (u v : KU) :
-    comparable (.one (.known u)) (.one (.known v)) = specComparable (.one (.known u)) (.one (.known v)) :=
-  forall_KU₂ (P := fun u v => comparable (.one (.known u)) (.one (.known v)) = specComparable (.one (.known u)) (.one (.known v)))
+    comparable (.one (.known u)) (.one (.known v)) = specComparable (.one (.known u)) (.one (.known v)) := by
+  have := all₂ (P := fun u v => comparable (.one (.known u)) (.one (.known v)) == specComparable (.one (.known u)) (.one (.known v)))
     (by decide +kernel) u v
+  exact beq_iff_eq.1 this
 example : comparable (.one (.known .Px)) (.one (.known .In)) = true ∧
     comparable (.one (.known .Px)) (.one (.known .Em)) = false ∧
     comparable (.one (.known .Em)) (.one (.known .Em)) = true := by decide +kernel
@@ -106,9 +355,10 @@ theorem kind_facts : kindOfNone = Kind.none ∧ kindOfUnknown = Kind.other ∧ k
     (∀ k ∈ KU.all, k.kind ≠ Kind.none) := by decide +kernel
 
 theorem comparable_known_symm (u v : KU) :
-    comparable (.one (.known u)) (.one (.known v)) = comparable (.one (.known v)) (.one (.known u)) :=
-  forall_KU₂ (P := fun u v => comparable (.one (.known u)) (.one (.known v)) = comparable (.one (.known v)) (.one (.known u)))
+    comparable (.one (.known u)) (.one (.known v)) = comparable (.one (.known v)) (.one (.known u)) := by
+  have := all₂ (P := fun u v => comparable (.one (.known u)) (.one (.known v)) == comparable (.one (.known v)) (.one (.known u)))
     (by decide +kernel) u v
+  exact beq_iff_eq.1 this
 
 theorem selfOnly_known_other (k : KU) : selfOnly k.kind = false → k.kind ≠ Kind.other := by
   intro h e; rw [e] at h; revert h; decide
@@ -248,21 +498,497 @@ theorem C08_complex_not_serialisable (compressed : Bool) (n : SN) (h : n.unit.is
 /-- multiplying two single units never cancels: the product has the compound unit `u*v` -/
 theorem C08_mul_single_units (x y : D) (u v : AU) (p : D) (hp : D.mul x y = some p) :
     mulSN ⟨x, .one u⟩ ⟨y, .one v⟩ = .ok ⟨p, .complex [u, v] []⟩ := by
-  simp [mulSN, hp, multiplyUnits, U.parts, cancelLoop, removeFirst, U.mk]
+  simp [mulSN, hp, multiplyUnits, multiplyUnitsG, U.parts, cancelLoopG, removeFirstG, U.mk]
 
 /-- dividing by the same unit cancels it -/
 theorem C08_div_same_unit_cancels (x y : D) (u : AU) (p : D) (hp : D.div x y = some p)
     (hq : D.div p (.fin 1) = some p) :
     divSN ⟨x, .one u⟩ ⟨y, .one u⟩ = .ok ⟨p, .none⟩ := by
-  simp [divSN, hp, multiplyUnits, U.parts, U.invert, U.mk, cancelLoop, removeFirst, convFactorF, hq,
-    anyConvertible, comparable]
+  simp [divSN, hp, multiplyUnits, multiplyUnitsG, U.parts, U.invert, U.mk, cancelLoopG, removeFirstG, convFactorF,
+    divByF, hq, anyConvertible, comparable]
 example : (divSN ⟨.fin 1, .one (.known .In)⟩ ⟨.fin 1, .one (.known .Cm)⟩).toOption = some ⟨.fin (rnd53 (127/50)), .none⟩ := by
   decide +kernel
 
-/-- NOT PROVED (kept visible): multiplication/division preserve the denoted quantity under every
-    assignment of positive magnitudes to base units (needs the f64 rounding of the table constants
-    related to their symbolic values).  Tied by the exhaustive correspondence only. -/
-def C08_multiplyUnits_value_preserving_full : Prop :=
-  ∀ (a b r : SN), mulSN a b = .ok r → True
+
+/-! ## value preservation of multiplication and division (exact factors)
+
+  The executed algebra divides f64 magnitudes by f64 table constants; its rounding is outside these
+  theorems.  They are about the same code (`multiplyUnitsG`, shared with the executed instance)
+  instantiated with the symbolic factors: `C08_mul_value_preserving`, `C08_div_value_preserving`.
+  `C08_mul_div_units_agree` ties the two instances: they always produce the same units. -/
+
+/-- what magnitudes are assigned to: the base unit of each convertible dimension and every other
+    (relative, unknown, `%`, `fr`) atomic unit -/
+inductive Base where
+  | dim (d : Dim)
+  | opaque (a : AU)
+  deriving DecidableEq
+
+abbrev Assignment := Base → Rat
+
+/-- the quantity one atomic unit denotes: its CSS size times the magnitude of its base -/
+def auDen (ρ : Assignment) (a : AU) : Sym :=
+  match a with
+  | .known k =>
+    match cssSize k with
+    | some (d, s) => s.mul ⟨ρ (.dim d), 0⟩
+    | none => ⟨ρ (.opaque a), 0⟩
+  | .unknown _ => ⟨ρ (.opaque a), 0⟩
+
+def prodDen (ρ : Assignment) : List AU → Sym
+  | [] => Sym.one
+  | a :: l => (auDen ρ a).mul (prodDen ρ l)
+
+def unitDen (ρ : Assignment) (u : U) : Sym := (prodDen ρ u.parts.1).div (prodDen ρ u.parts.2)
+
+/-- the quantity a number with (compound) units denotes under `ρ` -/
+def denote (ρ : Assignment) (x : SX) : Sym := x.val.mul (unitDen ρ x.unit)
+
+theorem auDen_q_ne (ρ : Assignment) (hρ : ∀ b, 0 < ρ b) (a : AU) : (auDen ρ a).q ≠ 0 := by
+  unfold auDen
+  cases a with
+  | unknown n => simp only; have := hρ (.opaque (.unknown n)); grind
+  | known k =>
+    simp only
+    cases h : cssSize k with
+    | none => simp only; have := hρ (.opaque (.known k)); grind
+    | some p =>
+      obtain ⟨d, s⟩ := p
+      simp only [Sym.mul]
+      have h1 := cssSize_q_ne k d s h
+      have h2 := hρ (.dim d)
+      intro e
+      have : s.q = 0 ∨ ρ (.dim d) = 0 := by
+        rcases Rat.mul_eq_zero.1 e with h | h
+        · exact Or.inl h
+        · exact Or.inr h
+      grind
+
+theorem prodDen_q_ne (ρ : Assignment) (hρ : ∀ b, 0 < ρ b) (l : List AU) : (prodDen ρ l).q ≠ 0 := by
+  induction l with
+  | nil => simp [prodDen, Sym.one]
+  | cons a l ih => exact Sym.mul_q_ne _ _ (auDen_q_ne ρ hρ a) ih
+
+theorem prodDen_append (ρ : Assignment) (l₁ l₂ : List AU) :
+    prodDen ρ (l₁ ++ l₂) = (prodDen ρ l₁).mul (prodDen ρ l₂) := by
+  induction l₁ with
+  | nil => simp [prodDen, Sym.one_mul]
+  | cons a l ih => simp only [List.cons_append, prodDen, ih, Sym.mul_assoc]
+
+/-- a conversion factor relates the denotations of the two units: one `d` is `f` `n`s -/
+theorem factor_den (ρ : Assignment) (d n : AU) (f : Sym) (h : convFactorS d n = some f) :
+    auDen ρ d = f.mul (auDen ρ n) ∧ f.q ≠ 0 := by
+  unfold convFactorS at h
+  by_cases e : d = n
+  · subst e
+    simp only [if_true] at h
+    injection h with h; subst h
+    exact ⟨(Sym.one_mul _).symm, by simp [Sym.one]⟩
+  · simp only [e, if_false] at h
+    cases d with
+    | unknown _ => simp at h
+    | known kd =>
+      cases n with
+      | unknown _ => simp at h
+      | known kn =>
+        simp only at h
+        obtain ⟨dim, sn, sd, h1, h2, h3⟩ := (factor_some_iff kn kd f).1 h
+        have hn := cssSize_q_ne kn dim sn h1
+        have hd := cssSize_q_ne kd dim sd h2
+        subst h3
+        constructor
+        · simp only [auDen, h1, h2]
+          apply Sym.ext' <;> simp only [Sym.div, Sym.mul, Sym.inv]
+          · grind
+          · omega
+        · simp only [Sym.div, Sym.mul, Sym.inv]; grind
+
+theorem removeFirst_spec (ρ : Assignment) (n : AU) : ∀ (ds ds' : List AU) (f : Sym),
+    removeFirstG convFactorS n ds = some (f, ds') →
+    prodDen ρ ds = (f.mul (auDen ρ n)).mul (prodDen ρ ds') ∧ f.q ≠ 0 := by
+  intro ds
+  induction ds with
+  | nil => intro ds' f h; cases h
+  | cons d ds ih =>
+    intro ds' f h
+    unfold removeFirstG at h
+    cases hc : convFactorS d n with
+    | some g =>
+      simp only [hc] at h
+      injection h with h; injection h with h1 h2; subst h1; subst h2
+      obtain ⟨e1, e2⟩ := factor_den ρ d n g hc
+      exact ⟨by simp only [prodDen, e1], e2⟩
+    | none =>
+      simp only [hc] at h
+      cases hr : removeFirstG convFactorS n ds with
+      | none => simp [hr] at h
+      | some p =>
+        simp only [hr, Option.map_some] at h
+        injection h with h; injection h with h1 h2; subst h1; subst h2
+        obtain ⟨e1, e2⟩ := ih p.2 p.1 (by rw [hr])
+        refine ⟨?_, e2⟩
+        simp only [prodDen, e1]
+        rw [Sym.mul_left_comm]
+
+/-- invariant of one cancellation loop, cross-multiplied (no inverses) -/
+theorem cancelLoop_inv (ρ : Assignment) : ∀ (ns ds : List AU) (num : Sym) (acc : List AU),
+    let r := cancelLoopG convFactorS Sym.div ns ds num acc
+    num.mul ((prodDen ρ acc).mul ((prodDen ρ ns).mul (prodDen ρ r.2.2))) =
+      r.1.mul ((prodDen ρ r.2.1).mul (prodDen ρ ds)) := by
+  intro ns
+  induction ns with
+  | nil => intro ds num acc; simp [cancelLoopG, prodDen, Sym.one_mul]
+  | cons n ns ih =>
+    intro ds num acc
+    unfold cancelLoopG
+    cases hr : removeFirstG convFactorS n ds with
+    | some p =>
+      obtain ⟨f, ds1⟩ := p
+      simp only
+      obtain ⟨e1, e2⟩ := removeFirst_spec ρ n ds ds1 f hr
+      have := ih ds1 (num.div f) acc
+      simp only at this
+      generalize cancelLoopG convFactorS Sym.div ns ds1 (num.div f) acc = r at *
+      rw [e1]
+      simp only [prodDen]
+      generalize prodDen ρ acc = A at *
+      generalize prodDen ρ ns = N at *
+      generalize prodDen ρ r.2.2 = D' at *
+      generalize prodDen ρ r.2.1 = A' at *
+      generalize prodDen ρ ds1 = D1 at *
+      generalize auDen ρ n = an at *
+      have hq := congrArg Sym.q this
+      have hk := congrArg Sym.k this
+      simp only [Sym.mul, Sym.div, Sym.inv] at hq hk
+      apply Sym.ext' <;> simp only [Sym.mul]
+      · have hf : f.q * (1 / f.q) = 1 := by grind
+        have : num.q * (A.q * (an.q * N.q * D'.q)) = (f.q * an.q) * (num.q * (1 / f.q) * (A.q * (N.q * D'.q))) := by
+          have : (f.q * an.q) * (num.q * (1 / f.q) * (A.q * (N.q * D'.q))) = (f.q * (1 / f.q)) * (num.q * (A.q * (an.q * N.q * D'.q))) := by grind
+          rw [this, hf]; grind
+        rw [this, hq]; grind
+      · omega
+    | none =>
+      simp only
+      have := ih ds num (acc ++ [n])
+      simp only at this
+      generalize cancelLoopG convFactorS Sym.div ns ds num (acc ++ [n]) = r at *
+      rw [prodDen_append] at this
+      simp only [prodDen, Sym.mul_one] at this ⊢
+      rw [← this]
+      apply Sym.ext' <;> simp only [Sym.mul]
+      · grind
+      · omega
+
+theorem U.mk_parts (n d : List AU) : (U.mk n d).parts = (n, d) := by
+  unfold U.mk
+  split
+  · rfl
+  · rfl
+  · rfl
+
+/-- `multiply_units` with exact factors, cross-multiplied: result · (old denominators) =
+    input · (old numerators) · (new denominator), as quantities -/
+theorem multiplyUnits_inv (ρ : Assignment) (su ou : U) (num : Sym)
+    (hou : ou.parts.1 ≠ [] ∨ ou.parts.2 ≠ []) :
+    let r := multiplyUnitsG convFactorS Sym.div su num ou
+    r.1.mul ((prodDen ρ r.2.parts.1).mul ((prodDen ρ su.parts.2).mul (prodDen ρ ou.parts.2))) =
+      num.mul ((prodDen ρ su.parts.1).mul ((prodDen ρ ou.parts.1).mul (prodDen ρ r.2.parts.2))) := by
+  unfold multiplyUnitsG
+  simp only
+  generalize su.parts.1 = nu
+  generalize su.parts.2 = du
+  generalize ou.parts.1 = on at *
+  generalize ou.parts.2 = od at *
+  split
+  · rename_i h
+    have h1 : nu = [] := by simpa using h.1
+    have h2 : od = [] := by simpa using h.2.1
+    subst h1; subst h2
+    simp only [U.mk_parts, prodDen, Sym.mul_one, Sym.one_mul]
+  · split
+    · rename_i h
+      have h1 : nu = [] := by simpa using h.1
+      have h2 : du = [] := by simpa using h.2
+      subst h1; subst h2
+      simp only [U.mk_parts, prodDen, Sym.mul_one, Sym.one_mul]
+    · split
+      · rename_i h
+        have h2 : on = [] := by simpa using h.2.1
+        subst h2
+        have hod : od ≠ [] := by
+          rcases hou with h' | h'
+          · exact absurd rfl h'
+          · exact h'
+        have h3 : du = [] := by
+          rcases h.2.2 with h' | h'
+          · exact absurd (by simpa using h') hod
+          · simpa using h'.1
+        subst h3
+        simp only [U.mk_parts, prodDen, Sym.mul_one, Sym.one_mul]
+      · have i1 := cancelLoop_inv ρ nu od num []
+        simp only at i1
+        generalize cancelLoopG convFactorS Sym.div nu od num [] = r1 at *
+        have i2 := cancelLoop_inv ρ on du r1.1 r1.2.1
+        simp only at i2
+        generalize cancelLoopG convFactorS Sym.div on du r1.1 r1.2.1 = r2 at *
+        simp only [U.mk_parts, prodDen_append]
+        simp only [prodDen, Sym.one_mul] at i1
+        generalize prodDen ρ nu = NU at *
+        generalize prodDen ρ du = DU at *
+        generalize prodDen ρ on = ON at *
+        generalize prodDen ρ od = OD at *
+        generalize prodDen ρ r1.2.1 = A1 at *
+        generalize prodDen ρ r1.2.2 = OD' at *
+        generalize prodDen ρ r2.2.1 = A2 at *
+        generalize prodDen ρ r2.2.2 = DU' at *
+        have q1 := congrArg Sym.q i1
+        have k1 := congrArg Sym.k i1
+        have q2 := congrArg Sym.q i2
+        have k2 := congrArg Sym.k i2
+        simp only [Sym.mul] at q1 k1 q2 k2
+        apply Sym.ext' <;> simp only [Sym.mul]
+        · -- r2·A2·DU·OD = OD·(r2·(A2·DU)) = OD·(r1·(A1·(ON·DU'))) = ON·DU'·(r1·A1·OD) = ON·DU'·(num·NU·OD')
+          have e1 : r2.1.q * (A2.q * (DU.q * OD.q)) = OD.q * (r2.1.q * (A2.q * DU.q)) := by grind
+          have e2 : OD.q * (r1.1.q * (A1.q * (ON.q * DU'.q))) = (ON.q * DU'.q) * (r1.1.q * (A1.q * OD.q)) := by grind
+          rw [e1, ← q2, e2, ← q1]; grind
+        · omega
+
+theorem Sym.one_div_one : Sym.one.div Sym.one = Sym.one := by decide +kernel
+
+theorem unitDen_q_ne (ρ : Assignment) (hρ : ∀ b, 0 < ρ b) (u : U) : (unitDen ρ u).q ≠ 0 :=
+  Sym.mul_q_ne _ _ (prodDen_q_ne ρ hρ _) (Sym.inv_q_ne _ (prodDen_q_ne ρ hρ _))
+
+/-- from the cross-multiplied invariant to the quotient form -/
+theorem multiplyUnits_denote (ρ : Assignment) (hρ : ∀ b, 0 < ρ b) (su ou : U) (num : Sym)
+    (hou : ou.parts.1 ≠ [] ∨ ou.parts.2 ≠ []) :
+    let r := multiplyUnitsG convFactorS Sym.div su num ou
+    r.1.mul (unitDen ρ r.2) = (num.mul (unitDen ρ su)).mul (unitDen ρ ou) := by
+  have h := multiplyUnits_inv ρ su ou num hou
+  simp only at h ⊢
+  generalize multiplyUnitsG convFactorS Sym.div su num ou = r at *
+  unfold unitDen
+  have n1 := prodDen_q_ne ρ hρ r.2.parts.2
+  have n2 := prodDen_q_ne ρ hρ su.parts.2
+  have n3 := prodDen_q_ne ρ hρ ou.parts.2
+  generalize prodDen ρ r.2.parts.1 = N' at *
+  generalize prodDen ρ r.2.parts.2 = D' at *
+  generalize prodDen ρ su.parts.1 = N1 at *
+  generalize prodDen ρ su.parts.2 = D1 at *
+  generalize prodDen ρ ou.parts.1 = N2 at *
+  generalize prodDen ρ ou.parts.2 = D2 at *
+  have hq := congrArg Sym.q h
+  have hk := congrArg Sym.k h
+  simp only [Sym.mul] at hq hk
+  apply Sym.ext' <;> simp only [Sym.mul, Sym.div, Sym.inv]
+  · -- multiply both sides by D'·D1·D2 ≠ 0
+    have key : (r.1.q * (N'.q * (1 / D'.q))) * (D'.q * (D1.q * D2.q)) =
+        (num.q * (N1.q * (1 / D1.q)) * (N2.q * (1 / D2.q))) * (D'.q * (D1.q * D2.q)) := by
+      have a1 : (r.1.q * (N'.q * (1 / D'.q))) * (D'.q * (D1.q * D2.q)) = (D'.q * (1 / D'.q)) * (r.1.q * (N'.q * (D1.q * D2.q))) := by grind
+      have a2 : (num.q * (N1.q * (1 / D1.q)) * (N2.q * (1 / D2.q))) * (D'.q * (D1.q * D2.q)) =
+          (D1.q * (1 / D1.q)) * (D2.q * (1 / D2.q)) * (num.q * (N1.q * (N2.q * D'.q))) := by grind
+      have b1 : D'.q * (1 / D'.q) = 1 := by grind
+      have b2 : D1.q * (1 / D1.q) = 1 := by grind
+      have b3 : D2.q * (1 / D2.q) = 1 := by grind
+      rw [a1, a2, b1, b2, b3, hq]; grind
+    have hne : D'.q * (D1.q * D2.q) ≠ 0 := by
+      intro e
+      rcases Rat.mul_eq_zero.1 e with h | h
+      · exact n1 h
+      · rcases Rat.mul_eq_zero.1 h with h | h
+        · exact n2 h
+        · exact n3 h
+    have := congrArg (fun x => x * (1 / (D'.q * (D1.q * D2.q)))) key
+    have c : ∀ x : Rat, x * (D'.q * (D1.q * D2.q)) * (1 / (D'.q * (D1.q * D2.q))) = x := by
+      intro x
+      have : (D'.q * (D1.q * D2.q)) * (1 / (D'.q * (D1.q * D2.q))) = 1 := by grind
+      rw [Rat.mul_assoc, this, Rat.mul_one]
+    rw [c, c] at this
+    exact this
+  · omega
+
+theorem unitDen_none (ρ : Assignment) : unitDen ρ .none = Sym.one := Sym.one_div_one
+
+theorem U.invert_parts (u : U) : u.invert.parts = (u.parts.2, u.parts.1) := U.mk_parts _ _
+
+theorem unitDen_invert (ρ : Assignment) (hρ : ∀ b, 0 < ρ b) (u : U) : unitDen ρ u.invert = (unitDen ρ u).inv := by
+  unfold unitDen
+  rw [U.invert_parts]
+  simp only
+  have n1 := prodDen_q_ne ρ hρ u.parts.1
+  have n2 := prodDen_q_ne ρ hρ u.parts.2
+  generalize prodDen ρ u.parts.1 = N at *
+  generalize prodDen ρ u.parts.2 = D at *
+  apply Sym.ext' <;> simp only [Sym.div, Sym.mul, Sym.inv]
+  · grind
+  · omega
+
+/-- the second operand really carries a unit (never `Unit::None` in disguise): what `mul`/`div` guarantee
+    before they call `multiply_units` -/
+def U.proper (u : U) : Prop := u = .none ∨ u.parts.1 ≠ [] ∨ u.parts.2 ≠ []
+
+/-- **Multiplication preserves the denoted quantity** (exact factors): under every assignment of positive
+    magnitudes to the base unit of each dimension and to every inconvertible unit, the product of two
+    numbers with (compound) units denotes the product of what they denote — including the cancellation
+    of convertible units across numerator and denominator with the CSS ratios (`multiply_units`). -/
+theorem C08_mul_value_preserving (ρ : Assignment) (hρ : ∀ b, 0 < ρ b) (a b : SX) (hb : b.unit.proper) :
+    denote ρ (mulSX a b) = (denote ρ a).mul (denote ρ b) := by
+  unfold mulSX denote
+  by_cases hn : b.unit = .none
+  · simp only [hn, if_true, unitDen_none, Sym.mul_one]
+    apply Sym.ext' <;> simp only [Sym.mul] <;> grind
+  · simp only [hn, if_false]
+    have hou : b.unit.parts.1 ≠ [] ∨ b.unit.parts.2 ≠ [] := by
+      rcases hb with h | h
+      · exact absurd h hn
+      · exact h
+    rw [multiplyUnits_denote ρ hρ a.unit b.unit _ hou]
+    apply Sym.ext' <;> simp only [Sym.mul] <;> grind
+
+/-- **Division preserves the denoted quantity** (exact factors). -/
+theorem C08_div_value_preserving (ρ : Assignment) (hρ : ∀ b, 0 < ρ b) (a b : SX) (hb : b.unit.proper) :
+    denote ρ (divSX a b) = (denote ρ a).div (denote ρ b) := by
+  unfold divSX denote
+  by_cases hn : b.unit = .none
+  · simp only [hn, if_true, unitDen_none, Sym.mul_one]
+    apply Sym.ext' <;> simp only [Sym.mul, Sym.div, Sym.inv]
+    · grind
+    · omega
+  · simp only [hn, if_false]
+    have hou : b.unit.invert.parts.1 ≠ [] ∨ b.unit.invert.parts.2 ≠ [] := by
+      rw [U.invert_parts]
+      rcases hb with h | h | h
+      · exact absurd h hn
+      · exact Or.inr h
+      · exact Or.inl h
+    rw [multiplyUnits_denote ρ hρ a.unit b.unit.invert _ hou, unitDen_invert ρ hρ]
+    simp only [Sym.div, Sym.inv_mul]
+    apply Sym.ext' <;> simp only [Sym.mul, Sym.inv]
+    · grind
+    · omega
+
+example : denote (fun _ => 1) (mulSX (divSX ⟨Sym.one, .none⟩ ⟨Sym.one, .one (.known .Cm)⟩) ⟨Sym.one, .one (.known .In)⟩)
+    = ⟨127 / 50, 0⟩ := by decide +kernel
+example : (mulSX (divSX ⟨Sym.one, .none⟩ ⟨Sym.one, .one (.known .Cm)⟩) ⟨Sym.one, .one (.known .In)⟩)
+    = ⟨⟨127 / 50, 0⟩, .none⟩ := by decide +kernel
+
+/-! ### the executed (f64) algebra produces the same units as the exact one -/
+
+theorem convFactor_isSome (d n : AU) : (convFactorF d n).isSome = (convFactorS d n).isSome := by
+  unfold convFactorF convFactorS
+  by_cases e : d = n
+  · simp [e]
+  · simp only [e, if_false]
+    cases d <;> cases n <;> simp [factorF64, factorSym]
+
+theorem removeFirst_agree (n : AU) : ∀ ds,
+    (removeFirstG convFactorF n ds).map (·.2) = (removeFirstG convFactorS n ds).map (·.2) := by
+  intro ds
+  induction ds with
+  | nil => rfl
+  | cons d ds ih =>
+    unfold removeFirstG
+    have hs := convFactor_isSome d n
+    cases h1 : convFactorF d n with
+    | some f =>
+      cases h2 : convFactorS d n with
+      | some g => simp only [Option.map_some]
+      | none => rw [h1, h2] at hs; cases hs
+    | none =>
+      cases h2 : convFactorS d n with
+      | some g => rw [h1, h2] at hs; cases hs
+      | none =>
+        simp only
+        cases hr1 : removeFirstG convFactorF n ds <;> cases hr2 : removeFirstG convFactorS n ds <;>
+          simp only [hr1, hr2, Option.map_some, Option.map_none] at ih ⊢
+        · cases ih
+        · cases ih
+        · injection ih with ih; rw [ih]
+
+theorem cancelLoop_agree {α β : Type} (da : α → Rat → α) (db : β → Sym → β) : ∀ (ns ds : List AU) (x : α) (y : β) (acc : List AU),
+    (cancelLoopG convFactorF da ns ds x acc).2 = (cancelLoopG convFactorS db ns ds y acc).2 := by
+  intro ns
+  induction ns with
+  | nil => intro ds x y acc; rfl
+  | cons n ns ih =>
+    intro ds x y acc
+    unfold cancelLoopG
+    have ha := removeFirst_agree n ds
+    cases h1 : removeFirstG convFactorF n ds with
+    | none =>
+      cases h2 : removeFirstG convFactorS n ds with
+      | none => exact ih ds x y _
+      | some q => simp [h1, h2] at ha
+    | some p =>
+      cases h2 : removeFirstG convFactorS n ds with
+      | none => simp [h1, h2] at ha
+      | some q =>
+        simp only [h1, h2, Option.map_some, Option.some.injEq] at ha
+        simp only
+        rw [ha]
+        exact ih q.2 _ _ acc
+
+theorem multiplyUnits_unit_agree {α β : Type} (da : α → Rat → α) (db : β → Sym → β) (su ou : U) (x : α) (y : β) :
+    (multiplyUnitsG convFactorF da su x ou).2 = (multiplyUnitsG convFactorS db su y ou).2 := by
+  unfold multiplyUnitsG
+  simp only
+  split
+  · rfl
+  · split
+    · rfl
+    · split
+      · rfl
+      · simp only
+        have h1 := cancelLoop_agree da db su.parts.1 ou.parts.2 x y []
+        generalize cancelLoopG convFactorF da su.parts.1 ou.parts.2 x [] = r1 at *
+        generalize cancelLoopG convFactorS db su.parts.1 ou.parts.2 y [] = s1 at *
+        have e1 : r1.2.1 = s1.2.1 := congrArg Prod.fst h1
+        have e2 : r1.2.2 = s1.2.2 := congrArg Prod.snd h1
+        have h2 := cancelLoop_agree da db ou.parts.1 su.parts.2 r1.1 s1.1 r1.2.1
+        rw [e1] at h2 ⊢
+        rw [e2]
+        generalize cancelLoopG convFactorF da ou.parts.1 su.parts.2 r1.1 s1.2.1 = r2 at *
+        generalize cancelLoopG convFactorS db ou.parts.1 su.parts.2 s1.1 s1.2.1 = s2 at *
+        have e3 : r2.2.1 = s2.2.1 := congrArg Prod.fst h2
+        have e4 : r2.2.2 = s2.2.2 := congrArg Prod.snd h2
+        rw [e3, e4]
+
+/-- **Tie between the executed and the exact algebra**: whenever the f64 model of `*` / `math.div` succeeds,
+    its result unit is the unit of the exact product / quotient, whatever the magnitudes. -/
+theorem C08_mul_div_units_agree (a b r : SN) (s t : Sym) :
+    (mulSN a b = .ok r → r.unit = (mulSX ⟨s, a.unit⟩ ⟨t, b.unit⟩).unit) ∧
+    (divSN a b = .ok r → r.unit = (divSX ⟨s, a.unit⟩ ⟨t, b.unit⟩).unit) := by
+  constructor
+  · intro h
+    unfold mulSN at h
+    cases hp : D.mul a.num b.num with
+    | none => simp [hp] at h
+    | some p =>
+      simp only [hp] at h
+      unfold mulSX
+      by_cases hn : b.unit = .none
+      · simp only [hn, if_true] at h ⊢; injection h with h; rw [← h]
+      · simp only [hn, if_false] at h ⊢
+        unfold multiplyUnits at h
+        simp only at h
+        have := multiplyUnits_unit_agree divByF Sym.div a.unit b.unit (some p) (s.mul t)
+        split at h
+        · injection h with h; rw [← h]; exact this
+        · cases h
+  · intro h
+    unfold divSN at h
+    cases hp : D.div a.num b.num with
+    | none => simp [hp] at h
+    | some p =>
+      simp only [hp] at h
+      unfold divSX
+      by_cases hn : b.unit = .none
+      · simp only [hn, if_true] at h ⊢; injection h with h; rw [← h]
+      · simp only [hn, if_false] at h ⊢
+        unfold multiplyUnits at h
+        simp only at h
+        have := multiplyUnits_unit_agree divByF Sym.div a.unit b.unit.invert (some p) (s.div t)
+        split at h
+        · injection h with h; rw [← h]; exact this
+        · cases h
 
 end Grass.Units
